@@ -762,6 +762,7 @@ type wgenOpts struct {
 	contLetBoost bool
 	selSwzBoost bool
 	multiSwz   bool // multi-component swizzles as values
+	f2iRange   bool // f32 -> i32/u32 conversions of values outside the target range (C01 finding: SPIR-V converts unclamped)
 	pack4      bool // pack4x{I,U}8[Clamp] / unpack4x{I,U}8
 	noArrRead  bool // no `a[i]` value reads of local arrays and no array-typed `let`
 	froundBoost bool // knob programs: round() of run-time half-integers stored to the output
@@ -1245,6 +1246,22 @@ func (g *wgen) conversion(t *wty, depth int) *wexpr {
 		if r < 9 {
 			g.f("cast:bool->" + sc.k)
 			return &wexpr{k: "cast", ty: t, args: []*wexpr{g.runtime(t.withScalar(tBool), depth-1)}}
+		}
+		if g.o.f2iRange && (g.o.floats || g.c.chance(0.5)) {
+			// any magnitude up to 2^33, either sign (never NaN): f32(bitcast<i32>(inp[k])) * 4.0 — WGSL conversions saturate
+			g.f("cast:f32->" + sc.k + ":any-range")
+			big := func() *wexpr {
+				iv := &wexpr{k: "bitcast", ty: tI32, args: []*wexpr{g.load(tU32)}}
+				return &wexpr{k: "bin", ty: tF32, op: "*", args: []*wexpr{{k: "cast", ty: tF32, args: []*wexpr{iv}}, {k: "lit", ty: tF32, bits: 4, konst: true, small: true}}}
+			}
+			if t.k == "vec" {
+				args := make([]*wexpr, t.n)
+				for i := range args {
+					args[i] = big()
+				}
+				return &wexpr{k: "cast", ty: t, args: []*wexpr{{k: "cons", ty: t.withScalar(tF32), args: args}}}
+			}
+			return &wexpr{k: "cast", ty: t, args: []*wexpr{big()}}
 		}
 		if g.o.floats {
 			g.f("cast:f32->" + sc.k)
